@@ -582,3 +582,14 @@ Definition mismatches (t : topo) (l : list obs) : list (Z * Z) :=
   omap (λ ob, let v := check_obs t ob in if 2 <=? v then Some (ob_id ob, v) else None) l.
 Definition unforced (t : topo) (l : list obs) : list Z :=
   omap (λ ob, if check_obs t ob =? 1 then Some (ob_id ob) else None) l.
+
+(* how many observed calls ran at level 0 (every sort forced: outcome independent of the sort
+   algorithm, CpuAlloc_Determ.alloc_deterministic_forced), 1 (some unforced sort of <= 12
+   elements, insertion sort modelled literally), 2 (order not predicted) *)
+Definition obs_level (t : topo) (ob : obs) : N :=
+  let from := mkset (ob_from ob) in
+  let prefer := if ob_prefer ob <? 0 then High else prio_of (ob_prefer ob) in
+  let cnt := if ob_release ob then sz from - ob_cnt ob else ob_cnt ob in
+  (allocate_cpus t (go_orders t prefer) prefer (flags_of (ob_flags ob)) from cnt).2.
+Definition level_hist (t : topo) (l : list obs) : N * N * N :=
+  fold_left (λ '(a, b, c) ob, match obs_level t ob with 0%N => (N.succ a, b, c) | 1%N => (a, N.succ b, c) | _ => (a, b, N.succ c) end) l (0%N, 0%N, 0%N).
